@@ -1,3 +1,1 @@
 import GoSSE.Basic
-import GoSSE.Spec.EventStream
-import GoSSE.Model.Parser
